@@ -245,6 +245,15 @@ def unary(env, n):
                 return Node(e + c if r.random() < 0.5 else c + e, v + c, n.kind, '(%s)+c%s' % (n.desc, cs))
             if op == 'rsubc':
                 return Node(c - e, c - v, n.kind, 'c%s-(%s)' % (cs, n.desc))
+            if len(cs) == 2 and cs == tuple(shp) and r.random() < 0.35:
+                # the constant as a scipy.sparse matrix: '*' must still be the element-wise product (or raise)
+                import scipy.sparse as _sp
+                S = _sp.csr_matrix(c) if r.random() < 0.5 else _sp.coo_matrix(c)
+                try:
+                    ne = (e * S) if op == 'mulc' else (S * e)
+                except Exception:
+                    return None                                   # unsupported combinations may raise
+                return Node(ne, v * c, n.kind, ('(%s)*sparse%s' if op == 'mulc' else 'sparse%s*(%s)').replace('%s', '{}').format(*((n.desc, cs) if op == 'mulc' else (cs, n.desc))))
             if op == 'mulc':
                 return Node(e * c, v * c, n.kind, '(%s)*c%s' % (n.desc, cs))
             return Node(c * e, c * v, n.kind, 'c%s*(%s)' % (cs, n.desc))
@@ -266,13 +275,32 @@ def unary(env, n):
             nv = (v @ c) if op == 'matmulc' else (c @ v)
         except Exception:
             return None
+        if len(cs) == 2 and r.random() < 0.3:
+            import scipy.sparse as _sp
+            S = _sp.csr_matrix(c)
+            try:
+                ne = (e @ S) if op == 'matmulc' else (S @ e)
+            except Exception:
+                return None
+            return Node(ne, nv, n.kind, ('(%s)@sparse%s' if op == 'matmulc' else 'sparse%s@(%s)').replace('%s', '{}').format(*((n.desc, cs) if op == 'matmulc' else (cs, n.desc))))
         try:
             ne = (e @ c) if op == 'matmulc' else (c @ e)
         except Exception as ex:
             raise OpError(op, n.desc, cs, ex)
         return Node(ne, nv, n.kind, ('(%s)@c%s' if op == 'matmulc' else 'c%s@(%s)').replace('%s', '{}').format(*((n.desc, cs) if op == 'matmulc' else (cs, n.desc))))
     if op == 'diag' and len(shp) == 2 and n.kind == 'dec':
-        k = int(r.integers(-1, 2))
+        k = int(r.integers(-2, 3))
+        if r.random() < 0.3:
+            # fill=True (rsome's own option): same shape, everything off the k-th diagonal is zero
+            mask = np.zeros(shp, bool)
+            for i in range(shp[0]):
+                if 0 <= i + k < shp[1]:
+                    mask[i, i + k] = True
+            if not mask.any():
+                return None
+            return Node(rso.diag(e, k, fill=True), np.where(mask, v, 0.0), n.kind, 'diag(%s,%d,fill)' % (n.desc, k))
+        if np.diag(v, k).size == 0:
+            return None
         return Node(rso.diag(e, k), np.diag(v, k), n.kind, 'diag(%s,%d)' % (n.desc, k))
     if op in ('tril', 'triu') and len(shp) == 2 and n.kind == 'dec':
         k = int(r.integers(-1, 2))
